@@ -116,7 +116,7 @@ func oracleFailures(c *hlib.Ctx, rq *mergeReq, st string, resps []*storepb.Serie
 }
 
 func genC06(c *hlib.Ctx) {
-	n := c.N(700, 30000)
+	n := c.N(700, 8000)
 	for i := 0; i < n; i++ {
 		c.Do(genMergeCase(c, 35, false), true)
 	}
